@@ -1,0 +1,33 @@
+//go:build verif
+
+package tensor
+
+import (
+	"github.com/sahandsafizadeh/qeep/tensor/internal/gradtrack"
+	"github.com/sahandsafizadeh/qeep/tensor/internal/tensor"
+)
+
+// Verification hooks (build tag "verif"): a read-only window on the gradient
+// context for conformance harnesses outside this module.
+
+type VerifEvent = gradtrack.VerifEvent
+
+// VerifSetSink installs (or, with nil, removes) the receiver of back-propagation events.
+func VerifSetSink(sink func(VerifEvent)) {
+	gradtrack.VerifSink = sink
+}
+
+// VerifContext returns the identity of t's current gradient context.
+func VerifContext(t tensor.Tensor) (gctx *gradtrack.GradContext) {
+	return t.GradContext().(*gradtrack.GradContext)
+}
+
+// VerifState projects the abstract state of t's gradient context.
+func VerifState(t tensor.Tensor) (tracked, spent, hasGrad bool, edges int) {
+	return VerifContext(t).VerifState()
+}
+
+// VerifTargets lists the operands t's backward edges point to.
+func VerifTargets(t tensor.Tensor) (targets []tensor.Tensor) {
+	return VerifContext(t).VerifTargets()
+}
